@@ -472,6 +472,21 @@ def mute_case(draw, driver=None):
             for x in c["cmds"]:
                 if "oc" in x:
                     x["oc"] = ["silent"]
+    if what == "mute" and draw(st.booleans()):
+        # the gateway comes back to life: later traffic gets its own, correct answers (nothing of the failed
+        # exchanges may linger in the driver)
+        t_un = events[0]["t"] + draw(st.sampled_from([1.6, 2.5, 4.0]))
+        events.append({"t": round(t_un, 4), "what": "unmute"})
+        k = 0
+        for tt in (t_un + 4.0, t_un + 4.3, t_un + 6.0):
+            kind2 = draw(st.sampled_from(["send", "seq"]))
+            cm = [{"k": draw(st.sampled_from(Q)), "a": 30 + k, "oc": ["value", 0x40 + k]}]
+            k += 1
+            if kind2 == "seq":
+                cm.append({"k": "dapc", "a": 30 + k, "p": 7})
+                cm.append({"k": draw(st.sampled_from(Q)), "a": 31 + k, "oc": ["value", 0x60 + k]})
+                k += 2
+            callers.append({"kind": kind2, "cmds": cm, "t0": round(tt, 4)})
     case = {"family": "mute", "driver": drv, "callers": callers, "events": events,
             "lat": draw(st.lists(st.floats(0, 0.999), max_size=12)), "tie": draw(st.booleans()), "drain_virtual": 60.0}
     if what == "mute_answers":
@@ -487,6 +502,8 @@ def features(case):
         f.append("event:" + e["what"] + (":silent" if e.get("notify") is False else ":eof" if e.get("eof") else ""))
     if case.get("glob"):
         f.append("device-path-is-a-glob-pattern")
+    if any(e["what"] == "unmute" for e in case.get("events", [])):
+        f.append("gateway-talks-again-after-a-silence")
     if any(e["what"] == "app_connect" for e in case.get("events", [])):
         f.append("application-calls-connect-again-after-failed")
     if any(c.get("cancel_with_report") for c in case["callers"]):
